@@ -212,6 +212,12 @@ Proof.
   rewrite zeros_length in H. specialize (H eq_refl). tauto.
 Qed.
 
+Lemma tp_sub32 f need : need <= f -> f < tp_w32 -> (f + tp_w32 - need) mod tp_w32 = f - need.
+Proof.
+  intros H1 H2. replace (f + tp_w32 - need) with ((f - need) + 1 * tp_w32) by lia.
+  rewrite N.mod_add by (unfold tp_w32; lia). apply N.mod_small. lia.
+Qed.
+
 (** * Insert, in closed form *)
 
 (** On a well-formed page, for a tuple whose size arithmetic does not wrap,
@@ -235,10 +241,11 @@ Proof.
   rewrite !E2.
   assert (E3 : (4 + n + tp_hdr) mod tp_w32 = 4 + n + 20)
     by (unfold tp_hdr; apply N.mod_small; unfold tp_w32; lia).
-  rewrite E3.
+  rewrite E3. clear E1 E2 E3.
   destruct (N.ltb_spec f (4 + n + 20)) as [Hc|Hc]; [reflexivity|].
-  assert (E4 : (f + tp_w32 - (4 + n)) mod tp_w32 = f - (4 + n)) by (unfold tp_w32; lia).
-  rewrite !E4.
+  assert (E4 : (f + tp_w32 - (4 + n)) mod tp_w32 = f - (4 + n))
+    by (apply tp_sub32; unfold tp_w32; lia).
+  rewrite !E4. clear E4.
   set (f' := f - (4 + n)).
   assert (E5 : tp_size <? f' = false) by (unfold tp_size, page_size, f'; lia).
   assert (E6 : tp_size - f' <? 4 = false) by (unfold tp_size, page_size, f'; lia).
@@ -652,10 +659,11 @@ Proof.
   assert (E2 : (4 + (tp_w32 - 4)) mod tp_w32 = 0) by (unfold tp_w32; reflexivity).
   rewrite !E2.
   assert (E3 : (0 + tp_hdr) mod tp_w32 = 20) by reflexivity.
-  rewrite E3.
+  rewrite E3. clear E1 E2 E3.
   destruct (N.ltb_spec f 20) as [Hc|Hc]; [lia|].
-  assert (E4 : (f + tp_w32 - 0) mod tp_w32 = f) by (unfold tp_w32; lia).
-  rewrite !E4.
+  assert (E4 : (f + tp_w32 - 0) mod tp_w32 = f)
+    by (rewrite tp_sub32; unfold tp_w32; lia).
+  rewrite !E4. clear E4.
   assert (E5 : tp_size <? f = false) by (unfold tp_size, page_size; lia).
   assert (E6 : tp_size - f <? 4 = false) by (unfold tp_size, page_size; lia).
   rewrite E5, E6.
